@@ -162,8 +162,8 @@ Proof.
   - destruct (load_plugin_module lower world n 0); try exact Hg.
     pose proof (load_plugin_class_good s p false o Hx Hg) as H.
     destruct (load_plugin_class lower s p false o). exact H.
-  - unfold owner_load. destruct (get_callback lower (s_cbs s) n); [exact Hg|].
-    destruct (load_plugin_module lower world n imp); try exact Hg.
+  - unfold owner_load. cbv zeta. destruct (get_callback lower (s_cbs s) (strip_py n)); [exact Hg|].
+    destruct (load_plugin_module lower world (strip_py n) imp); try exact Hg.
     pose proof (load_plugin_class_good s p initf o Hx Hg) as H.
     destruct (load_plugin_class lower s p initf o). exact H.
   - unfold owner_unload. destruct (is_owner lower n); [exact Hg|].
@@ -183,7 +183,7 @@ Proof.
       * rewrite <- Eb. apply filter_split_ids. apply Hg.
       * rewrite <- Eb. apply Forall_forall. intros c Hc. apply filter_In in Hc as [Hc _].
         destruct Hg as [[_ [_ H3]] _]. rewrite Forall_forall in H3. auto. }
-    destruct (load_plugin_module lower world n imp).
+    destruct (reload_module lower world n imp).
     + pose proof (load_plugin_class_good (St gd (s_next s) (s_dead s ++ ids (b0 :: bt))) p initf o Hx Hgg) as H.
       destruct (load_plugin_class lower (St gd (s_next s) (s_dead s ++ ids (b0 :: bt))) p initf o). exact H.
     + destruct (readd lower o gd (b0 :: bt)) as [r res]. exact Hre.
